@@ -3,7 +3,9 @@ package harness
 import (
 	"bytes"
 	"encoding/json"
+	"fmt"
 	"hash/fnv"
+	"os"
 	"runtime/debug"
 	"time"
 
@@ -52,6 +54,8 @@ type QProgram struct {
 	Cfg   QConfig  `json:"cfg"`
 	Steps []QStep  `json:"steps"`
 	Aux   []uint64 `json:"aux,omitempty"`
+	// Fault, if set, is the one fault plan to run (replays of fault runs); otherwise plans are drawn from Aux.
+	Fault *FaultSpec `json:"fault,omitempty"`
 }
 
 func (p *QProgram) JSON() []byte {
@@ -96,6 +100,11 @@ type QOpts struct {
 	MarkLog       bool // C06: markers around writer/ACK calls
 	DrainWriter   bool
 	Disk          *simdisk.Disk
+	// Faults: an I/O fault plan is armed on the disk. Writer calls, ACK and Close may fail when an
+	// injected failure hit them (the model rules are those of a full file: a failing Write consumed
+	// nothing, an event completed by Next stays buffered, a failed ACK removed nothing); close/reopen
+	// steps are skipped while failures can still occur.
+	Faults bool
 }
 
 // QCall records a writer or ACK call for crash checks (C06).
@@ -148,6 +157,7 @@ type QRunner struct {
 	CreatedIdx   int
 	writeFailed  bool
 	maxPagesUsed uint
+	callInj0     int // injected failures before the current writer/ACK call
 }
 
 // NewQRunner creates file, delegate and queue.
@@ -214,6 +224,39 @@ func (r *QRunner) count(n string) {
 
 func (r *QRunner) bounded() bool { return r.P.Cfg.MaxPages > 0 }
 
+// mayFail: a writer call, ACK or Close may report an error: the file is bounded (full), or an
+// injected I/O failure hit the call.
+var qDebug = os.Getenv("VERIF_QDEBUG") != ""
+
+func (r *QRunner) debugf(format string, args ...interface{}) {
+	if qDebug {
+		fmt.Fprintf(os.Stderr, "[q step %d] "+format+"\n", append([]interface{}{r.step}, args...)...)
+	}
+}
+
+func errChain(err error) string {
+	out := ""
+	for i := 0; err != nil && i < 10; i++ {
+		out += fmt.Sprintf(" <%T: %v>", err, err)
+		c, ok := err.(interface{ Cause() error })
+		if !ok {
+			break
+		}
+		err = c.Cause()
+	}
+	return out
+}
+
+func (r *QRunner) mayFail() bool {
+	if r.O.Faults && r.Disk.Injected() > r.callInj0 {
+		r.Counters["call-failed-by-fault"]++
+		return true
+	}
+	return r.bounded()
+}
+
+func (r *QRunner) faultHit() bool { return r.O.Faults && r.Disk.Injected() > r.callInj0 }
+
 func (r *QRunner) writer() (*pq.Writer, *Violation) {
 	if r.W == nil {
 		w, err := r.Q.Writer()
@@ -255,6 +298,52 @@ func (r *QRunner) Run() (v *Violation) {
 		}
 	}
 	r.step = len(r.P.Steps)
+	if r.O.Faults {
+		return r.finishAfterFaults()
+	}
+	return r.Close()
+}
+
+// finishAfterFaults: the failures stop for good. The buffered events can be flushed (on a bounded file
+// possibly only after draining and ACKing), the queue then holds exactly the un-ACKed completed events,
+// also after closing and reopening file and queue, and everything can be consumed and ACKed.
+func (r *QRunner) finishAfterFaults() *Violation {
+	if r.Disk.Injected() > 0 {
+		r.count("fault-hit")
+	}
+	r.Disk.Arm(nil)
+	steps := []QStep{{K: QRDone}, {K: QFlush}}
+	for _, s := range steps {
+		if v := r.Step(&s); v != nil {
+			return v
+		}
+	}
+	if r.Certain != len(r.Events) {
+		// bounded file: full. Reading and ACK work; afterwards the flush succeeds.
+		for _, s := range []QStep{{K: QDrain}, {K: QAckAll}, {K: QFlush}} {
+			if v := r.Step(&s); v != nil {
+				return v
+			}
+		}
+		if r.Certain != len(r.Events) {
+			if !r.bounded() {
+				return violationf("q-stuck-after-faults", r.step, "the failures stopped, everything flushed was consumed and ACKed, but %d completed events can still not be flushed", len(r.Events)-r.Certain)
+			}
+			// the buffered events do not fit into the (tiny) file even when it is empty; the Flush step has
+			// applied C12's rule (q-stuck) with its capacity guard. Nothing more to check on this handle.
+			r.count("buffered-exceeds-capacity")
+			return r.Close()
+		}
+	}
+	for _, s := range []QStep{{K: QProbe}, {K: QReopenF}, {K: QProbe}, {K: QDrain}, {K: QAckAll}, {K: QProbe}} {
+		if v := r.Step(&s); v != nil {
+			v.Msg = "after the I/O failures stopped: " + v.Msg
+			return v
+		}
+	}
+	if r.Acked != len(r.Events) {
+		return violationf("q-lost-after-faults", r.step, "after the I/O failures stopped only %d of %d completed events could be consumed and ACKed", r.Acked, len(r.Events))
+	}
 	return r.Close()
 }
 
@@ -310,6 +399,7 @@ func (r *QRunner) mark(text string) int {
 }
 
 func (r *QRunner) beginCall(kind string) QCall {
+	r.callInj0 = r.Disk.Injected()
 	return QCall{Step: r.step, Kind: kind, BeginIdx: r.mark("qb"), FlushedB4: r.FlushedCB, AckedB4: r.Acked}
 }
 
@@ -332,7 +422,7 @@ func (r *QRunner) closeQueue() *Violation {
 	err := r.Q.Close()
 	r.Q, r.W, r.R = nil, nil, nil
 	if err != nil {
-		if !r.bounded() {
+		if !r.mayFail() {
 			return violationf("q-close", r.step, "Queue.Close failed: %v", err)
 		}
 		r.count("close-flush-failed")
@@ -354,6 +444,10 @@ func (r *QRunner) closeQueue() *Violation {
 }
 
 func (r *QRunner) reopen(file bool) *Violation {
+	if r.O.Faults && !r.Disk.FaultOver() {
+		r.count("noop")
+		return nil
+	}
 	if r.inSect {
 		r.R.Done()
 		r.inSect = false
@@ -406,10 +500,11 @@ func (r *QRunner) Step(s *QStep) *Violation {
 		got, err := w.Write(buf)
 		r.endCall(c)
 		if err != nil {
-			if !r.bounded() {
+			if !r.mayFail() {
 				return violationf("q-write-error", r.step, "Writer.Write(%d bytes) failed on an unbounded file: %v", n, err)
 			}
 			r.count("write-failed")
+			r.debugf("Write failed: %v", err)
 			r.writeFailed = true
 			return nil // a failing Write consumed nothing
 		}
@@ -440,10 +535,11 @@ func (r *QRunner) Step(s *QStep) *Violation {
 		r.endCall(c)
 		r.classifyEvent(len(ev))
 		if err != nil {
-			if !r.bounded() {
+			if !r.mayFail() {
 				return violationf("q-next-error", r.step, "Writer.Next failed on an unbounded file: %v", err)
 			}
 			r.count("next-failed")
+			r.debugf("Next failed: %v", err)
 			r.writeFailed = true
 		}
 		r.count("event")
@@ -461,14 +557,15 @@ func (r *QRunner) Step(s *QStep) *Violation {
 		err := w.Flush()
 		r.endCall(c)
 		if err != nil {
-			if !r.bounded() {
+			if !r.mayFail() {
 				return violationf("q-flush-error", r.step, "Writer.Flush failed on an unbounded file: %v", err)
 			}
 			r.count("flush-failed")
+			r.debugf("Flush failed: %s", errChain(err))
 			r.writeFailed = true
 			// C12: once every flushed event has been ACKed the file is empty but for the
 			// header page and the last event page: the buffered events must fit again
-			if r.Acked == r.FlushedCB {
+			if r.Acked == r.FlushedCB && !r.faultHit() {
 				buffered := len(r.cur) + 4
 				for _, ev := range r.Events[r.FlushedCB:] {
 					buffered += len(ev) + 4
@@ -545,6 +642,14 @@ func (r *QRunner) Step(s *QStep) *Violation {
 		}
 		r.endCall(c)
 		if err != nil {
+			if r.faultHit() {
+				// the affected operation returned an error; nothing was removed
+				r.count("ack-failed-by-fault")
+				if r.AckedCB != r.Acked {
+					return violationf("q-ack-callback", r.step, "ACK failed, but the ACKed callbacks reported %d events in total, %d were ACKed before", r.AckedCB, r.Acked)
+				}
+				return nil
+			}
 			return violationf("q-ack-error", r.step, "ACK(%d) failed (consumed %d, acked %d): %v", n, r.consumed, r.Acked, err)
 		}
 		if r.AckedCB != r.Acked {
@@ -725,6 +830,11 @@ func DrainCopy(f *txfile.File) (events [][]byte, v *Violation) {
 // probe compares counters with an independent ground truth: what a fresh
 // reader can actually drain.
 func (r *QRunner) probe() *Violation {
+	if r.O.Faults && !r.Disk.FaultOver() {
+		// the probe opens a second queue handle, which begins a write transaction (NewStandaloneDelegate)
+		r.count("noop")
+		return nil
+	}
 	drained, v := DrainCopy(r.F)
 	if v != nil {
 		v.Item = r.step
@@ -786,7 +896,13 @@ func (r *QRunner) probe() *Violation {
 }
 
 // misuse runs the queue cells of the C15 matrix (implemented in queue_misuse.go).
-func (r *QRunner) misuse() *Violation { return r.queueMisuse() }
+func (r *QRunner) misuse() *Violation {
+	if r.O.Faults && !r.Disk.FaultOver() {
+		r.count("noop")
+		return nil
+	}
+	return r.queueMisuse()
+}
 
 // fill writes events until a writer call reports an error (at most 600 events).
 func (r *QRunner) fill(seed int) *Violation {
@@ -831,6 +947,10 @@ func (r *QRunner) fill(seed int) *Violation {
 	}
 	if r.writeFailed {
 		r.count("fill-to-error")
+	}
+	if qDebug {
+		st := r.F.VerifState()
+		r.debugf("fill done: events=%d flushedCB=%d acked=%d injected=%d dataEnd=%d metaEnd=%d metaTotal=%d dataFree=%v metaFree=%v wal=%d", len(r.Events), r.FlushedCB, r.Acked, r.Disk.Injected(), st.DataEnd, st.MetaEnd, st.MetaTotal, st.DataFree, st.MetaFree, len(st.WAL))
 	}
 	return nil
 }
